@@ -60,7 +60,9 @@ fn recipe(rc: &Rc, nuniq: usize, params: &codec::Params, comp: &codec::Comp) -> 
         slack: rc.slack,
         order: rc.order.clone(),
         gaps: (0..nuniq).map(|i| match rc.gap { 0 => 0, 1 => 1, _ => i }).collect(),
-        raw: (0..nuniq).map(|i| rc.raw_mask >> i & 1 == 1).collect(),
+        // storage form per chunk, base 3: 0 = compressed iff smaller, 1 = raw, 2 = compressed even if larger
+        raw: (0..nuniq).map(|i| rc.raw_mask / 3usize.pow(i as u32) % 3 == 1).collect(),
+        force_compressed: (0..nuniq).map(|i| rc.raw_mask / 3usize.pow(i as u32) % 3 == 2).collect(),
         hash_len: rc.hash_len,
         params: params.clone(),
         comp: comp.clone(),
@@ -157,7 +159,7 @@ pub fn run(rep: &mut Report) {
                     for order in permutations(nu) {
                         for gap in 0..3usize {
                             for unknown in [false, true] {
-                                for raw_mask in 0..(1usize << nu) {
+                                for raw_mask in 0..3usize.pow(nu as u32) {
                                     // quick tier: thin the product deterministically, keeping every value of every dimension
                                     count += 1;
                                     if !thorough && nu >= 2 && (count * 7 + ji) % 5 != 0 {
@@ -246,7 +248,7 @@ pub fn run(rep: &mut Report) {
     rep.set("evaluations", json!(rep.agg.get("archives") + rep.agg.get("http_clones") + rep.agg.get("seeded_clones")));
     rep.set("distinct_nontrivial", json!(rep.agg.distinct_count("layouts")));
     rep.set("exhaustive", json!(thorough));
-    rep.set("rule", json!("independent encoder: sources of <=3/4 words (incl. empty source and duplicate chunks) x {current, legacy magic} x slack {0,1,7,100} x all permutations of the stored chunks x gap pattern {none, 1 byte after each, ramp} x unknown fields {none, in every message} x all raw/compressed assignments x hash length {4,5,64} x {packed, unpacked rebuild order}, per chunker/compression universe (quick: a deterministic 1-in-5 thinning of the product that keeps every value of every dimension; thorough: the full product); each archive is opened by the real reader (accessors == encoder inputs) and cloned through IoReader, with a seed (recorded chunker parameters in use) and through HttpReader against the logging loopback server (requests == maximal runs); non-trivial = distinct archive byte strings"));
+    rep.set("rule", json!("independent encoder: sources of <=3/4 words (incl. empty source and duplicate chunks) x {current, legacy magic} x slack {0,1,7,100} x all permutations of the stored chunks x gap pattern {none, 1 byte after each, ramp} x unknown fields {none, in every message} x all per-chunk storage assignments {compressed iff smaller, raw, compressed although larger} x hash length {4,5,64} x {packed, unpacked rebuild order}, per chunker/compression universe (quick: a deterministic 1-in-5 thinning of the product that keeps every value of every dimension; thorough: the full product); each archive is opened by the real reader (accessors == encoder inputs) and cloned through IoReader, with a seed (recorded chunker parameters in use) and through HttpReader against the logging loopback server (requests == maximal runs); non-trivial = distinct archive byte strings"));
     rep.assume("the independent encoder defines 'conforming'; it never stores a compressed chunk whose stored size equals its source size");
 }
 
